@@ -77,7 +77,8 @@ VERSION="$(sed -n 's/^version *= *"\(.*\)"/\1/p' "$REPO/Cargo.toml" | head -n 1)
 T1=$(date +%s.%N)
 export C18_BUILD_S="$(echo "$T1 - $T0" | bc 2>/dev/null || echo 0)"
 export C18_REPO="$REPO"
-export C18_VERIF="$VERIF_ROOT"
+# VERIF_DIR (if set) redirects evidence / replays / known findings, as for the other engines
+export C18_VERIF="${VERIF_DIR:-$VERIF_ROOT}"
 export C18_WORK="$WORK"
 export C18_PYMOD="$TARGET_PY/pymod"
 export C18_PYDRV="$TARGET_DRV/release/pydrv"
